@@ -92,8 +92,9 @@ func canonicalList(dst *Segment, l List) (List, error) {
 	if !l.IsValid() {
 		return List{}, nil
 	}
-	if l.size.PointerCount == 0 {
-		// Data only, just copy over.
+	if l.size.PointerCount == 0 && l.flags&isCompositeList == 0 {
+		// Data only, just copy over.  (A struct list without pointers
+		// still has a tag word and elements to truncate: see below.)
 		sz := l.allocSize()
 		_, newAddr, err := alloc(dst, sz)
 		if err != nil {
